@@ -616,6 +616,17 @@ def cfg_divchange(i, model):
     return out
 
 
+def cfg_voicemix(i, model):
+    """every mode in which no two notes of equal pitch overlap within one track/channel (quantifier of the
+    statement); the zero-velocity re-encoding for the import alternates with the file as written"""
+    out = []
+    for mode in M.MODES:
+        if M.same_channel_overlap(model, mode):
+            continue
+        out.append((mode, "shift", (0, 7)[(i + mode) % 2], 64, "path", "score", ("plain", "zerovel")[(i + mode) % 2]))
+    return out
+
+
 def gen_options():
     for name, spec in M.option_scores():
         model = M.Model(spec)
@@ -654,7 +665,8 @@ def spaces(tier, seed):
                     % (M.PICKUP_METERS,)))
     pats = M.DIV_PATTERNS if quick else M.DIV_PATTERNS + M.DIV_PATTERNS_MORE
     sp.append(Space("modes", lambda: with_configs(M.gen_modes(pats), cfg_modes), True,
-                    "%d part/group/voice structures (tacet parts, nested groups, voice None) x %d divisions patterns x pickup "
+                    "%d part/group/voice structures (tacet parts, nested groups, voice None, voice None or 0 next to numbered "
+                    "voices in one part) x %d divisions patterns x pickup "
                     "yes/no (+ parts of unequal length for the first pattern); 6 modes x 3 policies (full), minimum_ppq cycled "
                     "over {0,7,480}; plus one zero-velocity re-encoding import per mode" % (len(M.STRUCTURES), len(pats))))
     sp.append(Space("touch", lambda: with_configs(M.gen_touch(), cfg_touch), True,
@@ -664,6 +676,26 @@ def spaces(tier, seed):
     sp.append(Space("divchange", lambda: with_configs(M.gen_divchange(), cfg_divchange), True,
                     "divisions change a->b for all ordered pairs of %s at a barline or mid-bar, 4 triples; pickup yes/no; "
                     "3 policies x minimum {0, lcm+1}, modes cycled" % (M.DIVCHANGE_VALUES,)))
+    sp.append(Space("voicemix", lambda: with_configs(M.gen_voicemix(), cfg_voicemix), True,
+                    "3 notes of one pitch (two overlapping, two touching) assigned in all ways to (part 1 without voice "
+                    "number, part 1 voice 1, part 1 voice 2, part 2 without voice number, part 2 voice 1) except both "
+                    "overlapping notes in one (part, voice): 100 assignments x 'no voice number' written as {None, 0}; "
+                    "divisions {6,1} alternating; every mode of the 6 in which no equal pitches overlap within a "
+                    "track/channel (modes 0 and 5 always), import of the file as written or re-encoded with zero-velocity "
+                    "note-ons (alternating)"))
+    if quick:
+        lt = lambda: M.gen_longtie()
+        lt_bounds = "metres %s, smallest divisions with integral beats, no pickup, ends in measure 4 only at its end" % (
+            M.LONGTIE_METERS,)
+    else:
+        lt = lambda: M.gen_longtie(M.LONGTIE_METERS + M.LONGTIE_METERS_MORE, far_ends="all", pickups=(False, True))
+        lt_bounds = ("metres %s, smallest divisions with integral beats, with and without a one-beat pickup, "
+                     "every beat of measure 4 as end" % (M.LONGTIE_METERS + M.LONGTIE_METERS_MORE,))
+    sp.append(Space("longtie", lambda: with_configs(lt(), cfg_cycle(2)), True,
+                    "one note held over >= 2 barlines (a whole measure inside it): every start beat of measure 1 x every end "
+                    "beat of measure 3 (and measure 4) x {chain tied at every barline, one untied note}, a touching note of "
+                    "the same pitch after it, second voice on every downbeat; %s; 2 of the 18 (mode, policy) combinations "
+                    "per score, cycled" % lt_bounds))
     sp.append(Space("options", gen_options, True,
                     "3 scores x output {path, returned MidiFile, file object} x input {Score, list, single Part/PartGroup} x "
                     "velocity {default,1,64,100,127} x minimum_ppq {0,1,L,L+1,2L,2L+1,7,480,960}; modes and shift/pad_bar cycled; "
